@@ -33,7 +33,7 @@ def _cname(call):
     return None
 
 
-SHAPE_ELEMENTWISE = {"isnan", "isfinite", "isinf", "equal", "not_equal", "logical_not", "logical_and", "logical_or",
+SHAPE_ELEMENTWISE = {"isnan", "isfinite", "isinf", "isclose", "equal", "not_equal", "logical_not", "logical_and", "logical_or",
                      "invert", "isin", "greater", "less", "where", "nan_to_num", "fmin", "fmax", "vectorize"}
 SHAPE_CHANGING = {"reshape", "ravel", "flatten", "squeeze", "take", "expand_dims", "transpose", "atleast_1d",
                   "atleast_2d", "column_or_1d"}
